@@ -742,6 +742,91 @@ func c07FirstDiff(a, b []byte) string {
 	return "no difference found"
 }
 
+// ---------- the tail of a real build against the model's finalize ----------
+
+func c07Options(reorder string) *krusty.Options {
+	o := krusty.MakeDefaultOptions() // Reorder: none
+	switch reorder {
+	case "legacy":
+		o.Reorder = krusty.ReorderOptionLegacy
+	case "unspecified":
+		o.Reorder = krusty.ReorderOptionUnspecified
+	}
+	return o
+}
+
+// finalCase07 observes the accumulated map of the tree through the hook, runs the real build and emits a CFinal case.
+// Domain: origin / transformer annotations not requested (the hook cannot switch origin tracking on), and a build
+// that either succeeds or fails in one of the steps finalize models.
+func finalCase07(r *Run, t tree07) {
+	km := c07TopMeta(t)
+	if c07StrIn("originAnnotations", km.BuildMetadata) || c07StrIn("transformerAnnotations", km.BuildMetadata) {
+		return
+	}
+	fs := filesys.MakeFsInMemory()
+	for p, c := range t.Files {
+		if err := fs.WriteFile(p, []byte(c)); err != nil {
+			return
+		}
+	}
+	var acc resmap.ResMap
+	cls0, _ := protect(func() error {
+		var err error
+		acc, err = krusty.VerifC07Accumulate(c07Options(t.Reorder), fs, t.Dir)
+		return err
+	})
+	if cls0 != ClsOk {
+		return
+	}
+	st := c07Observe(acc)
+	var hashTab []string
+	for i, res := range acc.Resources() {
+		st[i].tag = fmt.Sprintf("r%d", i)
+		if res.IsNilOrEmpty() {
+			continue
+		}
+		if h, err := res.Hash(c07Factory.Hasher()); err == nil {
+			hashTab = append(hashTab, fmt.Sprintf("(%s, %s)", coqStr(st[i].tag), coqStr(h)))
+		}
+	}
+	m, cls, msg := c07RunKrusty(t.Files, t.Dir, t.Reorder)
+	switch cls {
+	case ClsErr:
+		known := false
+		for _, k := range []string{"missing metadata.name", "missing kind", "not found in removal", "SortOrderTransformer: Failed to append"} {
+			if strings.Contains(msg, k) {
+				known = true
+			}
+		}
+		if !known {
+			r.Meta.Skipped++
+			r.Count("final_skipped", c07ErrKind(msg))
+			return
+		}
+	case ClsPanic:
+		if !strings.Contains(msg, "already registered id") {
+			r.Meta.Skipped++
+			return
+		}
+	}
+	fifo := true
+	if km.SortOptions != nil {
+		fifo = km.SortOptions.Order != "legacy"
+	} else if t.Reorder == "legacy" || t.Reorder == "unspecified" {
+		fifo = false
+	}
+	out := []string{}
+	if cls == ClsOk {
+		for _, x := range m.Resources() {
+			out = append(out, fmt.Sprintf("(%s, %s)", c07CoqId(x.CurId()), c07CoqAnn(x.GetAnnotations())))
+		}
+	}
+	r.Count("final_class", cls)
+	term := fmt.Sprintf("(CFinal [%s] %s %s %s %s [%s])", strings.Join(hashTab, "; "), coqBool(!fifo), c07QsList(km.BuildMetadata),
+		c07CoqState(st), cls, strings.Join(out, "; "))
+	r.AddCase(term, t, cls == ClsOk && len(out) > 0)
+}
+
 // ---------- adversarial: collide with a hashed generator name ----------
 
 // c07HashCollisionTree builds the tree once, picks a generated (hash-suffixed) ConfigMap/Secret of the output and adds a
@@ -813,6 +898,7 @@ func runBuilds07(r *Run, rng *Rng, corp corpus07, n int, tier string) error {
 	for _, t := range corp.Builds {
 		r.Count("build_kind", "corpus")
 		checkBuild07(r, t, false)
+		finalCase07(r, t)
 	}
 	for i := 0; i < n; i++ {
 		g := rng.Fork()
@@ -820,11 +906,16 @@ func runBuilds07(r *Run, rng *Rng, corp corpus07, n int, tier string) error {
 			if t, ok := c07HashCollisionTree(g); ok {
 				r.Count("build_kind", "hash-collision")
 				checkBuild07(r, t, false)
+				finalCase07(r, t)
 				continue
 			}
 		}
 		r.Count("build_kind", "random")
-		checkBuild07(r, genTree07(g), false)
+		t := genTree07(g)
+		checkBuild07(r, t, false)
+		if i%2 == 0 {
+			finalCase07(r, t)
+		}
 	}
 	return nil
 }
